@@ -68,6 +68,15 @@ def gen_plan(rng, index, tier):
     steps = []
     for _ in range(rng.randint(4, 30)):
         if rng.random() < 0.06:
+            # a solid component changes temperature (its neighbours' linked dimensions and the coolant
+            # that fills the rest of the pitch follow); the first look afterwards is at an area
+            steps.append({"op": "heat", "level": "component", "idx": rng.randrange(1000), "nuc": 0, "nuc2": 0, "f": 1.0, "frac": 0.1, "mass": 1.0, "T": rng.choice([400.0, 520.0, 650.0]), "look": rng.choice(["area", "volume"])})
+            continue
+        if rng.random() < 0.05:
+            # a lumped fission product / dummy nuclide appears in a fuel component (truncated depletion chains do that)
+            steps.append({"op": "dump", "level": "component", "idx": rng.randrange(1000), "nuc": 0, "nuc2": 0, "f": 1.0, "frac": 0.1, "mass": 1.0, "which": rng.choice(["DUMP1", "DUMP2", "LFP35"])})
+            continue
+        if rng.random() < 0.06:
             # somebody asks for cold (as-input) areas in between; no edit
             steps.append({"op": "coldarea", "level": "block", "idx": rng.randrange(1000), "nuc": 0, "nuc2": 0, "f": 1.0, "frac": 0.1, "mass": 1.0})
             continue
@@ -184,6 +193,10 @@ class Runner:
                             self.fail("C02.mass", f"step {k}: {c.name}.getMass({nuc}) = {got}, density x volume / symmetry x weight = {m}", what="component-mass", level="component")
                         b_mass[nuc] = b_mass.get(nuc, 0.0) + got
                         b_atoms[nuc] = b_atoms.get(nuc, 0.0) + float(n) * v / sf
+                h = float(b.getHeight())
+                for c, v in zip(comps, vols):
+                    if type(c).__name__ not in ("Helix",) and not rel(v, float(c.getArea()) * h, 1e-9):
+                        self.fail("C02.volume", f"step {k}: {c.name} of {b.getName()}: volume {v} != area x height {float(c.getArea()) * h}", what="area-height", level="component")
                 if not rel(float(b.getVolume()), b_vol):
                     self.fail("C02.volume", f"step {k}: block volume {float(b.getVolume())} != sum of components / symmetry factor {b_vol}", what="volume", level="block")
                 nds = b.getNuclideNumberDensities(nucs) if nucs else []
@@ -291,6 +304,32 @@ class Runner:
     def apply(self, k, st):
         if st["op"] == "edge":
             return self.edge(k, st)
+        if st["op"] == "heat":
+            from armi.reactor.components import DerivedShape
+
+            comps = [c for c in c06.objects_at_level(self.r, "component") if not isinstance(c, DerivedShape) and c.containsSolidMaterial() and c.name in ("fuel", "clad", "wire")]
+            if not comps:
+                return False
+            c = comps[st["idx"] % len(comps)]
+            c.setTemperature(st["T"])
+            if st["look"] == "area":
+                c.parent.getArea()
+                c.parent.parent.getVolume()
+            self.probe("component_heated")
+            self.sig.append(("component", "heat"))
+            return True
+        if st["op"] == "dump":
+            comps = [c for c in c06.objects_at_level(self.r, "component") if c.name == "fuel"]
+            if not comps:
+                return False
+            c = comps[st["idx"] % len(comps)]
+            c.setNumberDensity(st["which"], 1.0e-4)
+            got = float(c.getNumberDensity(st["which"]))
+            if not rel(got, 1.0e-4):
+                self.fail("C02.readback", f"step {k}: setNumberDensity({st['which']}, 1e-4) at component level reads back {got}", what="value", op="setNumberDensity", level="component")
+            self.probe("dummy_nuclide_present")
+            self.sig.append(("component", "dump"))
+            return True
         if st["op"] == "coldarea":
             blks = c06.objects_at_level(self.r, "block")
             b = blks[st["idx"] % len(blks)]
